@@ -67,8 +67,12 @@ def check_precedence(it, fn, a):
     with Sandbox() as sb:
         g = sb.g
         lines = [f"[{server}]"]
+        blanked = [o[:-1] for o in user_set if o.endswith("=")]
+        user_set = [o for o in user_set if not o.endswith("=")]
         for o in user_set:
             lines.append(f"{o} = {USER[o]}")
+        for o in blanked:
+            lines.append(f"{o} =")
         if use_home:
             lines.append("ofxhome = 424")
         (Path(sb.tmp) / "ofxget.cfg").write_text("\n".join(lines) + "\n")
@@ -87,6 +91,8 @@ def check_precedence(it, fn, a):
             conv = TYPED.get(o, str)
             if o in cli_set:
                 want = True if o in FLAGS else (conv(CLI[o][1]) if o != "checking" else [CLI[o][1]])
+            elif o in blanked:
+                want = ""
             elif o in user_set:
                 want = conv(USER[o])
             elif o in lib:
@@ -109,6 +115,9 @@ def cases_precedence(tier):
         cli_set = [o for o in opts if rng.random() < 0.3]
         user_set = [o for o in opts if rng.random() < 0.4]
         out.append([cli_set, user_set, rng.random() < 0.5, rng.choice(["myfi", "usaa", "myfi"])])
+    # a value the user's file sets to blank is still the user's value: OFX Home does not fill it in
+    out.append([[], ["url", "org", "brokerid=", "fid="], True, "myfi"])
+    out.append([[], ["url", "brokerid="], True, "myfi"])
     # OFX Home values must fill what the user file leaves open even when the URL is known
     out.append([[], ["url"], True, "myfi"])
     out.append([["url"], [], True, "myfi"])
@@ -194,7 +203,7 @@ def cases_persistence(tier):
             # an older value in the server's section or in the user's [DEFAULT] section
             pre = {rng.choice(["version", "appid", "org", "DEFAULT.version", "DEFAULT.appid", "DEFAULT.language"]): rng.choice(["102", "OLD", "151"])}
             pre = {k: (v if not k.endswith("version") or v.isdigit() else "151") for k, v in pre.items()}
-        out.append([rng.choice(["myfi", "usaa", "myfi"]), opts, pre, rng.random() < 0.15])
+        out.append([rng.choice(["myfi", "usaa", "myfi", "CreditUnion", "My_Bank-2"]), opts, pre, rng.random() < 0.15])
     # a value equal to the built-in default must still supersede what the FI database / an older file says
     out.append(["usaa", [["--version", "203"], ["-u", "porkypig"], ["-C", "111"]], {}, False])
     out.append(["myfi", [["--url", "https://bank.example/ofx"], ["--version", "203"]], {"version": "102"}, False])
